@@ -163,6 +163,31 @@ int main(){
 			ErrorFunction<> E(cl, &net, &ce);
 			sweepTol("ErrorFunction[tanh-net,cross-entropy]", reps, [&]{ RealVector g; double v = E.evalDerivative(q, g); std::vector<double> r(1, v); r.push_back(E.eval(q)); for(std::size_t i = 0; i != g.size(); ++i) r.push_back(g(i)); return r; });
 		}
+		{	// the same stateful network inside the WEIGHTED error function (a model with a non-empty State: every
+			// thread needs its own state object), classification and regression labels
+			LinearModel<RealVector, TanhNeuron> l1(d, 3, true); LinearModel<RealVector> l2(3, 3, true);
+			ConcatenatedModel<RealVector> net = l1 >> l2;
+			RealVector q(net.numberOfParameters());
+			for(std::size_t i = 0; i != q.size(); ++i) q(i) = (double(rng.below(9)) - 4.0) / 4.0;
+			CrossEntropy<unsigned int, RealVector> ce;
+			WeightedLabeledData<RealVector,unsigned int> wcl(cl, 1.0);
+			std::size_t k = 0;
+			for(auto&& e: wcl.elements()){ e.weight = w[k++]; }
+			ErrorFunction<> E(wcl, &net, &ce);
+			sweepTol("WeightedErrorFunction[tanh-net,cross-entropy]", reps, [&]{ RealVector g; double v = E.evalDerivative(q, g); std::vector<double> r(1, v); r.push_back(E.eval(q)); for(std::size_t i = 0; i != g.size(); ++i) r.push_back(g(i)); return r; });
+			// rectifier network on integer data and integer parameters: all arithmetic exact, bitwise comparison
+			LinearModel<RealVector, RectifierNeuron> r1(d, 3, true); LinearModel<RealVector> r2(3, 2, true);
+			ConcatenatedModel<RealVector> rnet = r1 >> r2;
+			RealVector rq(rnet.numberOfParameters());
+			for(std::size_t i = 0; i != rq.size(); ++i) rq(i) = double(rng.below(5)) - 2.0;
+			WeightedLabeledData<RealVector,RealVector> wreg(reg, 1.0);
+			k = 0;
+			for(auto&& e: wreg.elements()){ e.weight = w[k++]; }
+			ErrorFunction<> ER(wreg, &rnet, &loss);
+			sweep("WeightedErrorFunction[relu-net].evalDerivative", reps, [&]{ RealVector g; double v = ER.evalDerivative(rq, g); return bits(v) + "|" + vecbits(g); });
+			ErrorFunction<> EU(reg, &rnet, &loss);
+			sweep("ErrorFunction[relu-net].evalDerivative", reps, [&]{ RealVector g; double v = EU.evalDerivative(rq, g); return bits(v) + "|" + vecbits(g); });
+		}
 		{	sweep("transform(element-wise)", reps, [&]{ Data<RealVector> r = transform(inputs, AddOne()); std::string s; for(std::size_t b = 0; b != r.numberOfBatches(); ++b) s += matbits(r.batch(b)) + ";"; return s; });
 			sweep("transform(batch-wise)", reps, [&]{ Data<RealVector> r = transform(inputs, BatchDouble()); std::string s; for(std::size_t b = 0; b != r.numberOfBatches(); ++b) s += matbits(r.batch(b)) + ";"; return s; });
 		}
